@@ -98,6 +98,40 @@ def tracePre (k : Kind) (zero : Cell → Bool) : List Entry → Cell → Option 
       else none)
     else tracePre k zero B c
 
+/-! ## Shared items: One2Many / Many2One links from every user (max among non-zero)
+
+`m2mSourcesRev zero L t` (L = REVERSED registration order): follows `t` back through copy entries to a cell that is zero when
+loaded and written only by Many2Many-family entries with a single source cell on another node; returns those source cells in
+execution order.
+`reachPost es u t` (registration order): some Many2Many-family entry has `u` on its source side and `t` on its target side,
+and no copy entry overwrites `u` after it in a postsolve run. -/
+
+def m2mSourcesRev (zero : Cell → Bool) : List Entry → Cell → Option (List Cell)
+  | [], t => if zero t then some [] else none
+  | .copy s d :: B, t =>
+    if (Entry.copy s d).preWrites t then
+      (if s.node ≠ d.node then m2mSourcesRev zero B (s.node, s.beg + (t.2 - d.beg)) else none)   -- the copy overwrites: follow its source
+    else m2mSourcesRev zero B t
+  | .r2s cs ct vs sd :: B, t => if (Entry.r2s cs ct vs sd).preWrites t then none else m2mSourcesRev zero B t
+  | .m2m s d :: B, t =>
+    if (Entry.m2m s d).preWrites t then
+      (if s.len = 1 ∧ s.node ≠ d.node then (m2mSourcesRev zero B t).map (fun us => us ++ [(s.node, s.beg)]) else none)
+    else m2mSourcesRev zero B t
+
+def reachPost : List Entry → Cell → Cell → Bool
+  | [], _, _ => false
+  | .copy s d :: B, u, t => if (Entry.copy s d).postWrites u then false else reachPost B u t
+  | .r2s _ _ _ _ :: B, u, t => reachPost B u t
+  | .m2m s d :: B, u, t =>
+    if s.has u && s.node != d.node then (d.has t || reachPost B u t)
+    else if s.has u then false else reachPost B u t
+
+/-- no entry writes any of the cells `us` in a presolve run (they keep their loaded values) -/
+def srcsUnwritten (es : List Entry) (us : List Cell) : Bool := us.all (fun u => es.all (fun e => !e.preWrites u))
+
+/-- no entry writes `t` in a postsolve run (it keeps the solver's value) -/
+def nobodyPostWrites (es : List Entry) (t : Cell) : Bool := es.all (fun e => !e.postWrites t)
+
 /-- cells of nodes that a call does not load are zero after `CleanUpValueNodes` -/
 def notLoaded (inputs : List (Nat × List Val)) : Cell → Bool := fun c => (inputs.lookup c.1).isNone
 
